@@ -141,6 +141,47 @@ type Term struct {
 	p2   int
 	id   int32
 	cnt  int32 // approximate DAG size
+	sup  *Term // the single input variable the term depends on (nil: none or several)
+	many bool  // depends on several input variables
+	fp   bool  // contains floating-point operations
+	wide bool  // depends on an input variable wider than a byte
+}
+
+func (t *Term) setSupport() {
+	if t.sort.isFloat() && t.op != OpVar && t.op != OpConst {
+		t.fp = true
+	}
+	for _, c := range t.a {
+		if c.wide || (c.op == OpVar && c.sort != SBV8 && c.sort != SBool) {
+			t.wide = true
+		}
+	}
+	for _, c := range t.a {
+		if c.fp || (c.sort.isFloat() && c.op != OpConst) {
+			t.fp = true
+		}
+	}
+	for _, c := range t.a {
+		var cs *Term
+		switch {
+		case c.many:
+			t.many, t.sup = true, nil
+			return
+		case c.op == OpVar:
+			cs = c
+		default:
+			cs = c.sup
+		}
+		if cs == nil {
+			continue
+		}
+		if t.sup == nil {
+			t.sup = cs
+		} else if t.sup != cs {
+			t.many, t.sup = true, nil
+			return
+		}
+	}
 }
 
 var termIDs int32
@@ -188,7 +229,32 @@ type tkey struct {
 var (
 	internMu  sync.Mutex
 	internTab = make(map[tkey]*Term, 1<<16)
+	// epochMu is read-locked for the duration of every path; the table is only
+	// replaced under the write lock, i.e. while no path is executing, so that
+	// within one path structural equality and pointer equality coincide (the
+	// exploration relies on that for deterministic re-execution).
+	epochMu sync.RWMutex
 )
+
+const internLimit = 1 << 21
+
+func internBeginPath() { epochMu.RLock() }
+
+func internEndPath() {
+	epochMu.RUnlock()
+	internMu.Lock()
+	big := len(internTab) > internLimit
+	internMu.Unlock()
+	if big {
+		epochMu.Lock()
+		internMu.Lock()
+		if len(internTab) > internLimit {
+			internTab = make(map[tkey]*Term, 1<<16)
+		}
+		internMu.Unlock()
+		epochMu.Unlock()
+	}
+}
 
 func intern(t *Term) *Term {
 	if len(t.a) > 3 {
@@ -210,9 +276,6 @@ func intern(t *Term) *Term {
 		internMu.Unlock()
 		return old
 	}
-	if len(internTab) > 1<<21 {
-		internTab = make(map[tkey]*Term, 1<<16)
-	}
 	internTab[k] = t
 	internMu.Unlock()
 	return t
@@ -231,7 +294,7 @@ func mkBool(b bool) *Term {
 }
 
 func mkVar(s Sort, name string) *Term {
-	return &Term{op: OpVar, sort: s, name: name, cnt: 1}
+	return intern(&Term{op: OpVar, sort: s, name: name, cnt: 1})
 }
 
 func mk(op Op, s Sort, a ...*Term) *Term {
@@ -242,7 +305,9 @@ func mk(op Op, s Sort, a ...*Term) *Term {
 			c = math.MaxInt32
 		}
 	}
-	return intern(&Term{op: op, sort: s, a: a, cnt: c})
+	t := &Term{op: op, sort: s, a: a, cnt: c}
+	t.setSupport()
+	return intern(t)
 }
 
 // ---- boolean constructors ----
@@ -522,7 +587,9 @@ func tExtract(a *Term, hi, lo int) *Term {
 		}
 		return tSignExt(in, bvSort(w))
 	}
-	return intern(&Term{op: OpExtract, sort: bvSort(w), a: []*Term{a}, p1: hi, p2: lo, cnt: a.cnt + 1})
+	t := &Term{op: OpExtract, sort: bvSort(w), a: []*Term{a}, p1: hi, p2: lo, cnt: a.cnt + 1}
+	t.setSupport()
+	return intern(t)
 }
 
 func tZeroExt(a *Term, to Sort) *Term {
